@@ -33,6 +33,10 @@ func (lc *LeastConnectionsStrategy) NextBackend(r *http.Request) *Backend {
 
 	// Find the backend with the least active connections
 	for _, backend := range lc.backends {
+		// An ejected backend is usually idle: it must not win the comparison
+		if !backend.healthFlag() {
+			continue
+		}
 		connections := backend.GetActiveConnections()
 		if connections < minConnections {
 			minConnections = connections
